@@ -4,7 +4,7 @@ import numpy as np
 from common import *
 
 ID = "C06"
-THEOREM_FILES = ["Summer.Props.C06", "Summer.Props.C08Source", "Summer.Props.C06Source", "Summer.Props.C17Strat", "Summer.Props.C17Reach"]
+THEOREM_FILES = ["Summer.Props.C06", "Summer.Props.C08Source", "Summer.Props.C06Source", "Summer.Props.C17Strat", "Summer.Props.C17Reach", "Summer.Props.C17GlueReq"]
 TASK = "task"
 RULE = ("programs with literal / parameterised / expression-valued distributions and splits, full and partial stratifications, "
         "population-split adjustments after the last stratification (every second program: a sequence A, B, A' where A' repeats A's stratification and filter "
